@@ -43,6 +43,13 @@ def evaluate(e: ast.AST, env: Dict[str, Any]) -> Any:
         return [evaluate(x, env) for x in e.elts]
     if isinstance(e, ast.Set):
         return [evaluate(x, env) for x in e.elts]
+    if isinstance(e, ast.Dict) and all(k is not None for k in e.keys):
+        return {evaluate(k, env): evaluate(v, env) for k, v in zip(e.keys, e.values)}
+    if isinstance(e, ast.Subscript):
+        base, key = evaluate(e.value, env), evaluate(e.slice, env)
+        if isinstance(base, dict) and key in base:
+            return base[key]
+        raise Unknown(f"subscript `{ast.unparse(e)[:40]}`")
     if isinstance(e, ast.UnaryOp) and isinstance(e.op, ast.Not):
         return not evaluate(e.operand, env)
     if isinstance(e, ast.BoolOp):
@@ -96,6 +103,12 @@ def evaluate(e: ast.AST, env: Dict[str, Any]) -> Any:
             left = right
         return True
     if isinstance(e, ast.Call) and isinstance(e.func, ast.Name) and not e.keywords:
+        if e.func.id == "isinstance" and len(e.args) == 2:
+            kinds = {"str": str, "int": int, "float": float, "bool": bool, "dict": dict, "list": list, "tuple": tuple, "Mapping": dict, "bytes": bytes}
+            ts = e.args[1].elts if isinstance(e.args[1], ast.Tuple) else [e.args[1]]
+            names = [_dotted(t) for t in ts]
+            if all(n is not None and n.split(".")[-1] in kinds for n in names):
+                return isinstance(evaluate(e.args[0], env), tuple(kinds[n.split(".")[-1]] for n in names))
         if e.func.id == "bool" and len(e.args) == 1:
             return bool(evaluate(e.args[0], env))
         if e.func.id == "len" and len(e.args) == 1:
@@ -107,6 +120,18 @@ def evaluate(e: ast.AST, env: Dict[str, Any]) -> Any:
                 return env[key]
             if len(e.args) == 3:
                 return evaluate(e.args[2], env)
+    if isinstance(e, ast.Call) and isinstance(e.func, ast.Attribute) and e.func.attr == "get" and len(e.args) in (1, 2) and not e.keywords and _dotted(e.func.value) not in env:
+        try:
+            base = evaluate(e.func.value, env)
+        except Unknown:
+            base = None
+        if isinstance(base, dict):
+            k = evaluate(e.args[0], env)
+            return base[k] if k in base else (evaluate(e.args[1], env) if len(e.args) == 2 else None)
+    if isinstance(e, ast.Call) and isinstance(e.func, ast.Attribute) and e.func.attr in ("lower", "upper", "strip") and not e.args and not e.keywords:
+        base = evaluate(e.func.value, env)
+        if isinstance(base, str):
+            return getattr(base, e.func.attr)()
     if isinstance(e, ast.Call) and isinstance(e.func, ast.Attribute) and e.func.attr in ("startswith", "endswith") and len(e.args) == 1 and not e.keywords:
         base = evaluate(e.func.value, env)
         arg = evaluate(e.args[0], env)
